@@ -73,28 +73,43 @@ func (c *collection) indexNewDoc(ctx context.Context, doc *client.Document) erro
 	return nil
 }
 
-func (c *collection) updateIndexedDoc(
+// getIndexedFieldsOfDoc reads the stored values of the indexed fields of the given document.
+func (c *collection) getIndexedFieldsOfDoc(
 	ctx context.Context,
-	doc *client.Document,
-) error {
-	primaryKey, err := c.getPrimaryKeyFromDocID(ctx, doc.ID())
+	docID client.DocID,
+) (*client.Document, error) {
+	primaryKey, err := c.getPrimaryKeyFromDocID(ctx, docID)
 	if err != nil {
-		return err
+		return nil, err
 	}
 
 	// TODO-ACP: https://github.com/sourcenetwork/defradb/issues/2365 - ACP <> Indexing, possibly also check
-	// and handle the case of when oldDoc == nil (will be nil if inaccessible document).
-	oldDoc, err := c.get(
+	// and handle the case of when the doc == nil (will be nil if inaccessible document).
+	return c.get(
 		ctx,
 		primaryKey,
 		c.Definition().CollectIndexedFields(),
 		false,
 	)
+}
+
+// updateIndexedDoc moves the index entries of a document from the values it had before an
+// update (oldDoc) to the values it has now.
+//
+// The new values are read back from the store: the document object handed to Update may carry
+// only the fields that are being changed, and for counter fields it carries the increment
+// instead of the resulting value.
+func (c *collection) updateIndexedDoc(
+	ctx context.Context,
+	oldDoc *client.Document,
+	docID client.DocID,
+) error {
+	newDoc, err := c.getIndexedFieldsOfDoc(ctx, docID)
 	if err != nil {
 		return err
 	}
 	for _, index := range c.indexes {
-		err = index.Update(ctx, oldDoc, doc)
+		err = index.Update(ctx, oldDoc, newDoc)
 		if err != nil {
 			return err
 		}
